@@ -1041,7 +1041,7 @@ func checkC19(tier string, seed int64) *CustomResult {
 			"evaluations": run.evals, "distinct_nontrivial": len(run.nontrivial), "exhaustive": true, "samples": samples,
 			"states": run.states, "transitions": run.trans, "traces_validated_against_impl": run.trans,
 			"distinct_observed_orders": len(run.outcomes),
-			"queue_candidates": len(qAlpha), "queue_sets": len(qjobs) + len(q2jobs), "application_candidates": len(aAlpha), "application_sets": len(ajobs),
+			"queue_candidates":         len(qAlpha), "queue_sets": len(qjobs) + len(q2jobs), "application_candidates": len(aAlpha), "application_sets": len(ajobs),
 			"rule": fmt.Sprintf("queues: every pair, every triple (quick: of the candidates with pending 1) and every set of 4 over every %dth candidate out of %d key tuples {priority offset, allocated, guaranteed, max, pending} x {fair,fifo} x priority sort on/off, children created in EVERY permutation and sorted by the real Queue.sortQueues; applications: every set of size %v out of %d key tuples x 6 policy combinations through the real Queue.sortApplications; asks: every insertion order of every multiset of <= 4 asks (+ one removal); nodes: every history of depth <= %d over add/remove/allocate/release/resize/placeholder/replace/foreign add,update,remove/reserve/unreserve/capacity on 3 nodes of the real node collection, both iterators checked in every state, for fair and binpacking. one evaluation = one real sort of one presented order. non-trivial = a candidate set in which the reference comparator strictly orders at least one pair / a node state with >= 2 registered nodes", step, len(qAlpha), asz, len(aAlpha), ndepth),
 		},
 		Violations: run.found,
